@@ -129,3 +129,43 @@ def cmdDecAll (ws : List String) : String :=
   | _ => "bad-op"
 
 end Rpcx.Driver
+
+namespace Rpcx.Driver
+open Rpcx Rpcx.Gen
+
+def fnv32 (bs : Bytes) : Nat :=
+  bs.foldl (fun h b => ((h ^^^ b.toNat) * 16777619) % 4294967296) 2166136261
+
+def insertStrSorted (s : String) : List String → List String
+  | [] => [s]
+  | x :: xs => if s < x then s :: x :: xs else x :: insertStrSorted s xs
+
+/-- for stream parsing the payload is hashed as it travels (a compressed payload stays compressed) -/
+def rawRegistry : Registry := fun _ => some ⟨fun x => some x, fun x => some x⟩
+
+partial def frameEntries (cfg : Cfg) (seqMode : String) (skipHb : Bool) (bs : Bytes) (acc : List String) : List String × String :=
+  if bs.isEmpty then (acc, "end") else
+  match decode cfg bs with
+  | .ok (m, rest) =>
+    let isPush := Header.messageType m.hdr == C.MessageType_Request && Header.isOneway m.hdr && !Header.isHeartbeat m.hdr
+    let sq := if seqMode == "noseq" then "" else if seqMode == "pushseq" && isPush then "*:" else toString (Header.seq m.hdr).toNat ++ ":"
+    let e := sq ++ toString m.payload.length ++ ":" ++ toString (fnv32 m.payload)
+      ++ (if Header.messageStatusType m.hdr == C.MessageStatusType_Error then ":E" else "")
+    if skipHb && Header.isHeartbeat m.hdr then frameEntries cfg seqMode skipHb rest acc
+    else frameEntries cfg seqMode skipHb rest (e :: acc)
+  | .error _ => (acc, "err")
+
+/-- `frames <seq|noseq|pushseq> <hb|nohb> <stream hex>`: the stream parsed by the Lean decoder into
+    frames; prints the sorted multiset of `[seq:]payloadLen:fnv32(payload)[:E]` and how the stream ended -/
+def cmdFrames (ws : List String) : String :=
+  match ws with
+  | [sq, hb, hxs] =>
+    match parseHex hxs with
+    | none => "bad-args"
+    | some bs =>
+      let (es, fin) := frameEntries ⟨0, rawRegistry⟩ sq (hb == "nohb") bs []
+      let sorted := es.foldl (fun acc e => insertStrSorted e acc) []
+      s!"{fin} n={es.length} " ++ " ".intercalate sorted
+  | _ => "bad-op"
+
+end Rpcx.Driver
